@@ -62,6 +62,9 @@ func (r Retry) Middleware(h message.HandlerFunc) message.HandlerFunc {
 	retryLoop:
 		for {
 			waitTime := expBackoff.NextBackOff()
+			if waitTime == backoff.Stop {
+				return producedMessages, err
+			}
 			select {
 			case <-ctx.Done():
 				return producedMessages, err
